@@ -338,6 +338,22 @@ pub fn apply_action<S: Scenario>(scn: &S, w: &mut World, x: &mut S::X, a: &Actio
     Ok(())
 }
 
+/// Generic oracle for every scenario: a call through the service under test may panic only
+/// when one of its own inner calls was scripted to panic.
+pub fn unexpected_panics(w: &World, out: &mut Vec<Viol>) {
+    for (c, cl) in w.callers.iter().enumerate() {
+        if cl.phase != Phase::Panicked {
+            continue;
+        }
+        let Some(req) = &cl.req else { continue };
+        let g = w.inner.lock().unwrap();
+        let scripted = g.calls.iter().any(|k| k.req.id == req.id && (k.gate == Some(Out::Panic) || k.status == crate::inner::CallStatus::Panicked));
+        if !scripted {
+            out.push(Viol::new("unexpected_panic", "call_future", format!("the call of caller {c} panicked although none of its inner calls panicked")));
+        }
+    }
+}
+
 /// Execute one history from scratch.
 pub fn execute<S: Scenario>(scn: &S, h: &[Action], trace: bool, run_epilogue: &dyn Fn(&str) -> bool) -> Exec {
     let mut w = World::new(scn.callers(), scn.grid_ms(), scn.mode(), scn.rng_seed());
@@ -358,6 +374,7 @@ pub fn execute<S: Scenario>(scn: &S, h: &[Action], trace: bool, run_epilogue: &d
             break;
         }
         scn.after(&mut w, &mut x, a, &mut viols);
+        unexpected_panics(&w, &mut viols);
     }
     let mut fp = core_fingerprint(&w);
     fp.push('#');
